@@ -183,6 +183,23 @@ def is_cnf(spec):
     return None
 
 
+def rename(spec, varmap=None, termmap=None):
+    """The same grammar with variables / terminals renamed (multi-character variable names, the character ε as a
+    terminal, ...)."""
+    varmap = varmap or {}
+    termmap = termmap or {}
+    _, V, Sg, rules, S = spec
+    Vs = set(V)
+    def sym(x):
+        return varmap.get(x, x) if x in Vs else termmap.get(x, x)
+    return ('cfg', tuple(sorted(varmap.get(v, v) for v in V)), tuple(sorted(termmap.get(t, t) for t in Sg)),
+            tuple((varmap.get(l, l), tuple(sym(x) for x in rhs)) for l, rhs in rules), varmap.get(S, S))
+
+
+MULTI = {'A': 'X', 'B': 'XX', 'S': 'XS'}       # names that are concatenations of each other
+EPS_TERMINAL = {'b': 'ε'}                       # the character ε used as an ordinary terminal (grammar epsilon is then 'e')
+
+
 def start_first(spec):
     """The same grammar with the rules of the start variable moved to the front (the simple text format takes the
     left-hand side of the first rule as start variable)."""
@@ -210,7 +227,8 @@ def _rhs_menu2():
 
 
 LONG_MENU = [('a', 'S', 'b'), ('A', 'S', 'A'), ('S', 'A', 'a'), ('A', 'A', 'A'), ('a', 'b', 'S'), ('a', 'A', 'b', 'A'),
-             ('A', 'b', 'A'), ('S', 'S', 'S'), ('a', 'S', 'b', 'S'), ('A', 'a', 'A', 'a')]
+             ('A', 'b', 'A'), ('S', 'S', 'S'), ('a', 'S', 'b', 'S'), ('A', 'a', 'A', 'a'),
+             ('a', 'a', 'b', 'a', 'b'), ('a', 'A', 'b', 'A', 'a'), ('A', 'a', 'A', 'b', 'A', 'a')]
 
 
 def cfg2(plus=False):
